@@ -35,6 +35,9 @@ fn main() {
         "C07" => vcheck::checks::hchecks::c07(tier, seed),
         "C02" => vcheck::checks::c02::run(tier, seed),
         "C05" => vcheck::checks::c05::run(tier, seed),
+        "C08" => vcheck::checks::c08::run(tier, seed),
+        "C12" => vcheck::checks::hchecks::c12(tier, seed),
+        "C17" => vcheck::checks::hchecks::c17(tier, seed),
         "C09" => vcheck::checks::c09::run(tier, seed),
         "C13" => vcheck::checks::c13::run(tier, seed),
         _ => {
